@@ -874,7 +874,7 @@ func (d *Data) ServeHTTP(uuid dvid.UUID, ctx *datastore.VersionedCtx, w http.Res
 			return
 		}
 		w.Header().Set("Content-Type", "application/json")
-		fmt.Fprintf(w, string(jsonBytes))
+		fmt.Fprint(w, string(jsonBytes))
 
 	case "metadata":
 		switch action {
@@ -909,7 +909,7 @@ func (d *Data) ServeHTTP(uuid dvid.UUID, ctx *datastore.VersionedCtx, w http.Res
 				return
 			}
 			w.Header().Set("Content-Type", "application/json")
-			fmt.Fprintf(w, string(jsonBytes))
+			fmt.Fprint(w, string(jsonBytes))
 		}
 		timedLog.Infof("HTTP %s: metadata (%s)", r.Method, r.URL)
 
